@@ -1,4 +1,5 @@
 mod alloc;
+mod c08;
 mod c17;
 mod layout;
 mod proto;
@@ -138,6 +139,15 @@ fn run(cmd: &str, args: &[String], seed: u64, rep: &mut Report) {
             let layouts = layout::LayoutSet::load(arg(&args, "--layouts").unwrap());
             let protos: Vec<&str> = arg(&args, "--protos").unwrap().split(',').collect();
             proto::replay_layouts(&layouts, &protos, seed, arg_u64(&args, "--reps", 1) as usize, &mut rep);
+        }
+        "reassembly" => {
+            let ctx = valve::Ctx {
+                layouts: layout::LayoutSet::load(arg(&args, "--layouts").unwrap()),
+                templates: template::Templates::load(arg(&args, "--templates").unwrap()),
+                drift: drift_ids(),
+            };
+            let all = layout::LayoutSet::load(arg(&args, "--layouts").unwrap());
+            c08::replay(&ctx, &all, &read_ndjson(arg(&args, "--in").unwrap()), seed, arg_u64(&args, "--reps", 1) as usize, &mut rep);
         }
         "replay" => {
             let f: Value = serde_json::from_str(&std::fs::read_to_string(arg(&args, "--in").unwrap()).unwrap()).unwrap();
